@@ -1,31 +1,151 @@
 //! C02: multiplication.
+//!   overflowing_mul / checked_mul / wrapping_mul / saturating_mul / strict_mul  cfg a b
+//!   mul cfg dbg|rel a b            the inherent `mul`
+//!   mulop cfg dbg|rel form a b     the operators: vv `a * b`, vr `a * &b`, rv `&a * b`, rr `&a * &b`,
+//!                                  as `a *= b`, asr `a *= &b`
+//!   widening_mul cfg a b, carrying_mul cfg a b c            (unsigned)
+//!   mul_words cfg b c a0,a1,…      (unsigned) `(lo_i, carry) = a_i.carrying_mul(b, carry)` chained
+//! Besides the standard configurations (`for_config!`) this bin instantiates further digit counts of
+//! every digit type (`for_config_extra!`; gen/c02.py EXTRA_CFGS must list the same ones).
 use bnum_verif_harness::*;
+use core::ops::{Mul, MulAssign};
 
-macro_rules! imp {
-    ($U:ident, $I:ident, $D:ty, $N:literal) => {{
+macro_rules! forms {
+    ($T:ty, $form:expr, $x:expr, $y:expr) => {{
+        let x: $T = $x;
+        let y: $T = $y;
+        match $form {
+            "vv" => Some(<$T as Mul<$T>>::mul(x, y).out()),
+            "vr" => Some(<$T as Mul<&$T>>::mul(x, &y).out()),
+            "rv" => Some(<&$T as Mul<$T>>::mul(&x, y).out()),
+            "rr" => Some(<&$T as Mul<&$T>>::mul(&x, &y).out()),
+            "as" => { let mut z = x; <$T as MulAssign<$T>>::mul_assign(&mut z, y); Some(z.out()) }
+            "asr" => { let mut z = x; <$T as MulAssign<&$T>>::mul_assign(&mut z, &y); Some(z.out()) }
+            _ => None,
+        }
+    }};
+}
+
+/// `level`: `full` = every entry point including the operator forms, `std` = every named method,
+/// `lean` = the methods with a body of their own (`long_mul`, the signed re-signing, saturation side,
+/// `mul`, `widening_mul`, `carrying_mul`).  Every call site instantiates (and inlines) a whole
+/// multiplication, so the levels keep the build time of this bin in check.
+macro_rules! body {
+    ($level:ident, $U:ident, $I:ident, $N:literal) => {{
         type UT = bnum::$U<$N>;
         type IT = bnum::$I<$N>;
         fn run(signed: bool, op: &str, a: &[&str]) -> Option<String> {
             let u = |i: usize| UT::from_hex(a[i]);
             let s = |i: usize| IT::from_hex(a[i]);
             if !signed {
-                bin_ops!(op, u, u, overflowing_mul, checked_mul, wrapping_mul, saturating_mul, strict_mul, widening_mul);
+                bin_ops!(op, u, u, overflowing_mul, widening_mul);
                 bin_ops_mode!(op, a, u, u, mul);
                 if op == "carrying_mul" { return Some(u(0).carrying_mul(u(1), u(2)).out()); }
+                if op == "mul_words" {
+                    let b = u(0);
+                    let mut carry = u(1);
+                    let mut out: Vec<UT> = vec![];
+                    if a[2] != "-" {
+                        for t in a[2].split(',') {
+                            let (lo, hi) = UT::from_hex(t).carrying_mul(b, carry);
+                            out.push(lo);
+                            carry = hi;
+                        }
+                    }
+                    return Some((out, carry).out());
+                }
+                body!(@$level unsigned u, UT, op, a);
             } else {
-                bin_ops!(op, s, s, overflowing_mul, checked_mul, wrapping_mul, saturating_mul, strict_mul);
+                bin_ops!(op, s, s, overflowing_mul, saturating_mul);
                 bin_ops_mode!(op, a, s, s, mul);
+                body!(@$level signed s, IT, op, a);
             }
             None
         }
         Some(run as fn(bool, &str, &[&str]) -> Option<String>)
     }};
+    (@lean $k:ident $x:ident, $T:ty, $op:ident, $a:ident) => {};
+    (@std unsigned $x:ident, $T:ty, $op:ident, $a:ident) => {
+        bin_ops!($op, $x, $x, checked_mul, wrapping_mul, saturating_mul, strict_mul);
+    };
+    (@std signed $x:ident, $T:ty, $op:ident, $a:ident) => {
+        bin_ops!($op, $x, $x, checked_mul, wrapping_mul, strict_mul);
+    };
+    (@full $k:ident $x:ident, $T:ty, $op:ident, $a:ident) => {
+        body!(@std $k $x, $T, $op, $a);
+        if $op == "mulop" {
+            if !mode_ok($a[0]) { return Some("skip".into()); }
+            return forms!($T, $a[1], $x(2), $x(3));
+        }
+    };
+}
+
+/// standard configurations: operator forms on the digit counts 1, 3, 17, 1024 (gen/c02.py FORM_NS)
+macro_rules! imp {
+    ($U:ident, $I:ident, $D:ty, 1) => { body!(full, $U, $I, 1) };
+    ($U:ident, $I:ident, $D:ty, 3) => { body!(full, $U, $I, 3) };
+    ($U:ident, $I:ident, $D:ty, 17) => { body!(full, $U, $I, 17) };
+    ($U:ident, $I:ident, $D:ty, 1024) => { body!(full, $U, $I, 1024) };
+    ($U:ident, $I:ident, $D:ty, $N:literal) => { body!(std, $U, $I, $N) };
+}
+macro_rules! imp_lean {
+    ($U:ident, $I:ident, $D:ty, $N:literal) => { body!(lean, $U, $I, $N) };
+}
+
+/// digit counts beyond the shared list: around powers of two, odd / prime counts, and the widest
+/// neighbours of the 8192-bit limit, for every digit type
+macro_rules! for_config_extra {
+    ($cfg:expr, $m:ident) => {
+        match $cfg {
+            "8x6" => $m!(BUintD8, BIntD8, u8, 6),
+            "8x10" => $m!(BUintD8, BIntD8, u8, 10),
+            "8x11" => $m!(BUintD8, BIntD8, u8, 11),
+            "8x13" => $m!(BUintD8, BIntD8, u8, 13),
+            "8x15" => $m!(BUintD8, BIntD8, u8, 15),
+            "8x31" => $m!(BUintD8, BIntD8, u8, 31),
+            "8x32" => $m!(BUintD8, BIntD8, u8, 32),
+            "8x33" => $m!(BUintD8, BIntD8, u8, 33),
+            "8x65" => $m!(BUintD8, BIntD8, u8, 65),
+            "8x129" => $m!(BUintD8, BIntD8, u8, 129),
+            "8x1023" => $m!(BUintD8, BIntD8, u8, 1023),
+            "16x6" => $m!(BUintD16, BIntD16, u16, 6),
+            "16x7" => $m!(BUintD16, BIntD16, u16, 7),
+            "16x8" => $m!(BUintD16, BIntD16, u16, 8),
+            "16x15" => $m!(BUintD16, BIntD16, u16, 15),
+            "16x17" => $m!(BUintD16, BIntD16, u16, 17),
+            "16x33" => $m!(BUintD16, BIntD16, u16, 33),
+            "16x255" => $m!(BUintD16, BIntD16, u16, 255),
+            "32x5" => $m!(BUintD32, BIntD32, u32, 5),
+            "32x7" => $m!(BUintD32, BIntD32, u32, 7),
+            "32x8" => $m!(BUintD32, BIntD32, u32, 8),
+            "32x9" => $m!(BUintD32, BIntD32, u32, 9),
+            "32x15" => $m!(BUintD32, BIntD32, u32, 15),
+            "32x17" => $m!(BUintD32, BIntD32, u32, 17),
+            "32x33" => $m!(BUintD32, BIntD32, u32, 33),
+            "32x127" => $m!(BUintD32, BIntD32, u32, 127),
+            "64x6" => $m!(BUint, BInt, u64, 6),
+            "64x7" => $m!(BUint, BInt, u64, 7),
+            "64x10" => $m!(BUint, BInt, u64, 10),
+            "64x11" => $m!(BUint, BInt, u64, 11),
+            "64x13" => $m!(BUint, BInt, u64, 13),
+            "64x15" => $m!(BUint, BInt, u64, 15),
+            "64x17" => $m!(BUint, BInt, u64, 17),
+            "64x31" => $m!(BUint, BInt, u64, 31),
+            "64x33" => $m!(BUint, BInt, u64, 33),
+            "64x127" => $m!(BUint, BInt, u64, 127),
+            _ => None,
+        }
+    };
 }
 
 fn main() {
     serve(|op, cfg, args| {
         let (signed, c) = split_cfg(cfg);
         let f: Option<fn(bool, &str, &[&str]) -> Option<String>> = for_config!(c, imp);
+        let f: Option<fn(bool, &str, &[&str]) -> Option<String>> = match f {
+            Some(f) => Some(f),
+            None => for_config_extra!(c, imp_lean),
+        };
         f.and_then(|f| f(signed, op, args))
     });
 }
